@@ -89,6 +89,9 @@ func bases() []base {
 	for ph := 1; ph <= 4; ph++ {
 		out = append(out, base{Name: fmt.Sprintf("deny in phase %d, multipart spilled", ph), Conf: "SecRequestBodyInMemoryLimit 16\n", CT: "multipart/form-data; boundary=B", Body: mp1, Keep: "Off", Flags: fmt.Sprintf("deny%d", ph), Response: true})
 	}
+	for _, ph := range []int{2, 4} {
+		out = append(out, base{Name: fmt.Sprintf("multipart 2 files, ctl:ruleEngine=Off in phase %d", ph), CT: "multipart/form-data; boundary=B", Body: mp2, Keep: "Off", Flags: fmt.Sprintf("engineoff%d", ph), Response: true})
+	}
 	for _, typ := range []string{"Serial", "Concurrent"} {
 		out = append(out, base{Name: "audit " + typ, Conf: "AUDIT:" + typ, CT: "application/x-www-form-urlencoded", Body: "a=1&b=2&c=33333333", Response: true, Flags: "match"})
 	}
@@ -132,6 +135,8 @@ func (b base) conf(d dirs) string {
 	sb.WriteString("SecRule REQUEST_HEADERS:X-F \"@contains match\" \"id:11,phase:1,pass,log,msg:'logged match'\"\n")
 	for ph := 1; ph <= 4; ph++ {
 		fmt.Fprintf(&sb, "SecRule REQUEST_HEADERS:X-F \"@contains deny%d\" \"id:%d,phase:%d,deny,status:403,log\"\n", ph, 20+ph, ph)
+		// the engine switched off in the middle of the transaction (the uploads are stored by then when ph >= 2)
+		fmt.Fprintf(&sb, "SecRule REQUEST_HEADERS:X-F \"@contains engineoff%d\" \"id:%d,phase:%d,pass,nolog,ctl:ruleEngine=Off\"\n", ph, 40+ph, ph)
 	}
 	sb.WriteString("SecRule REQUEST_BODY \"@rx .\" \"id:30,phase:2,pass,nolog,setvar:tx.bodylen=%{REQUEST_BODY_LENGTH}\"\n")
 	sb.WriteString("SecAction \"id:31,phase:2,pass,nolog,setvar:tx.p2=+1\"\n")
